@@ -8,6 +8,8 @@ CONSTANTS
   MaxEnv = 2
   ForeignAt = "name"
   RenderFails = FALSE
+  CacheMisses = FALSE
+  VerBumps = FALSE
   FailKinds = {"reqloop1", "fatal2"}
 VIEW view
 ACTION_CONSTRAINT Emit
